@@ -160,8 +160,18 @@ func MustNewPush(ctx *Context, cmd uint32, body interface{}, opts ...PacketOptio
 	return p
 }
 
+// withOption returns a new option list ending in o. The constructors must not
+// append to opts in place: a caller may spread one slice with spare capacity
+// into calls made from several goroutines, and an in-place append would write
+// every call's last option into the same cell of that shared array.
+func withOption(opts []PacketOption, o PacketOption) []PacketOption {
+	out := make([]PacketOption, 0, len(opts)+1)
+	out = append(out, opts...)
+	return append(out, o)
+}
+
 func MustNewRequest(ctx *Context, cmd uint32, body interface{}, opts ...PacketOption) Packet {
-	opts = append(opts, WithRequestId(ctx.NextReqId()))
+	opts = withOption(opts, WithRequestId(ctx.NextReqId()))
 
 	p, e := NewPacket(ctx, RequestPacket, cmd, body, opts...)
 
@@ -173,13 +183,13 @@ func MustNewRequest(ctx *Context, cmd uint32, body interface{}, opts ...PacketOp
 }
 
 func NewRequest(ctx *Context, cmd uint32, body interface{}, opts ...PacketOption) (Packet, error) {
-	opts = append(opts, WithRequestId(ctx.NextReqId()))
+	opts = withOption(opts, WithRequestId(ctx.NextReqId()))
 
 	return NewPacket(ctx, RequestPacket, cmd, body, opts...)
 }
 
 func MustNewResponse(ctx *Context, cmd uint32, code uint8, body interface{}, opts ...PacketOption) Packet {
-	opts = append(opts, WithStatusCode(code))
+	opts = withOption(opts, WithStatusCode(code))
 	p, e := NewPacket(ctx, ResponsePacket, cmd, body, opts...)
 	if e != nil {
 		panic(e)
@@ -188,7 +198,7 @@ func MustNewResponse(ctx *Context, cmd uint32, code uint8, body interface{}, opt
 }
 
 func NewResponse(ctx *Context, cmd uint32, sc uint8, body interface{}, opts ...PacketOption) (Packet, error) {
-	opts = append(opts, WithStatusCode(sc))
+	opts = withOption(opts, WithStatusCode(sc))
 	return NewPacket(ctx, ResponsePacket, cmd, body, opts...)
 }
 
